@@ -180,7 +180,7 @@ def run(res, tier, seed, proofs_ok):
     D.run_witnesses(res, random.Random(seed + 1))
 
     # ---- 2/3. pipeline tie + oracle ----
-    n_valid = 500 if quick else 6000
+    n_valid = 500 if quick else 4000
     n_bad = 150 if quick else 1500
     n_part = 200 if quick else 2000
     cases = [G.gen_case(rng) for _ in range(n_valid)]
@@ -193,12 +193,12 @@ def run(res, tier, seed, proofs_ok):
         run_exhaustive(res, rng)
 
     # ---- deck level: tie on captured data + sweep at points ----
-    D.run_decks(res, rng, 60 if quick else 600)
+    D.run_decks(res, rng, 60 if quick else 400)
 
 
 def run_exhaustive(res, rng):
     '''Every tree over 2 surfaces (4 literals) with <= 3 internal nodes of
-    arity <= 2 and with <= 2 internal nodes of arity <= 3; 15 000 random trees
+    arity <= 2 and with <= 2 internal nodes of arity <= 3; 8 000 random trees
     with exactly 4 internal nodes (the full set has > 4e5 members for arity 2).'''
     from collections import OrderedDict
     trees = []
@@ -208,7 +208,7 @@ def run_exhaustive(res, rng):
         trees += [t for t in G.all_trees(n, max_arity=3)
                   if any(len(k[1]) == 3 for k in walk(t))]
     res.count('exhaustive:enumerated', len(trees))
-    trees += [G.random_tree_n(rng, 4) for _ in range(15000)]
+    trees += [G.random_tree_n(rng, 4) for _ in range(8000)]
     cases = []
     for tree in trees:
         cells = OrderedDict()
